@@ -164,7 +164,7 @@ def run(chk, tier):
                              detail="`%s` reaches GcPtr::dealloc other than through GcBuilder::drop / context drop: %s" % (
                                  n, " -> ".join(prog.path_to(pred3, K_DEALLOC))),
                              loc="%s:%s" % (e.file, e.line))
-        chk.floor("entries-reaching-K[%s]" % cfgname, n_reaching, 6)
+        chk.floor("entries-reaching-K[%s]" % cfgname, n_reaching, 3)
 
         # R2: ordering inside callback-invoking functions
         n_cb = 0
@@ -203,7 +203,7 @@ def run(chk, tier):
                             "callback invocation" % (d, bad.callee if bad else "", bad.line if bad else ""),
                      loc="%s:%s" % (b["span"]["f"], bad.line if bad else b["span"]["l"]),
                      sample={"fn": d, "callback_blocks": cb_blocks})
-        chk.floor("callback-taking-fns[%s]" % cfgname, n_cb, 8)
+        chk.floor("callback-taking-fns[%s]" % cfgname, n_cb, 4)
 
         # R4: by-value construction / casts
         ctors = {"context::Mutation": [], "context::Finalization": [], "context::Context": []}
